@@ -10,6 +10,15 @@ TEXT = {
         "level_note": "trusted: solver soundness; the encoder (conformance-checked against CPython); model R treats machine "
                       "arithmetic as mathematical for the structural clauses, NaN operands excluded by precondition",
     },
+    "C15": {
+        "technique": "contract-based deductive verification: contracts + loop invariants on both PeriodicBoundaries classes, "
+                     "VCs from the real source, z3/cvc5; range and idempotence bit-precisely in IEEE binary64, congruence in the reals",
+        "level_text": "all six methods of HypercubicPeriodicBoundaries and HypercuboidPeriodicBoundaries verified against "
+                      "contracts for every input: result in [0,L) / [-L/2,L/2], congruent to the input, idempotent, "
+                      "list versions by loop invariant for any dimension; cubic = cuboid by a uniqueness lemma over the contracts",
+        "level_note": "trusted: solver soundness; CPython float_rem encoding with fmod abstracted by its C99 properties; "
+                      "congruence clause in model R (machine arithmetic treated as mathematical); settings' length tuples are not aliased by argument lists",
+    },
 }
 
 NOT_APPLICABLE = {
